@@ -102,6 +102,29 @@ fn faults_for(case: &Case, image: &[u8], hlen: usize, chunk: usize, lay: Option<
             }
         }
     }
+    // transplants between chunks of the same archive: the tag of chunk j on the payload of chunk i, the payload of
+    // chunk j under the tag of chunk i (equal lengths only)
+    let m2 = ranges.len().min(cap.min(5));
+    for i in 0..m2 {
+        for j in 0..m2 {
+            if i != j {
+                let (a, b) = (&ranges[i], &ranges[j]);
+                if a.tag == b.tag && a.tag > 0 {
+                    v.push(Fault::Copy { from: hlen + b.start + b.payload, to: hlen + a.start + a.payload, len: a.tag });
+                }
+                if a.payload == b.payload && a.payload > 0 {
+                    v.push(Fault::Copy { from: hlen + b.start, to: hlen + a.start, len: a.payload });
+                }
+            }
+        }
+    }
+    if ranges.len() > 2 {
+        let (l, p) = (&ranges[ranges.len() - 1], &ranges[ranges.len() - 2]);
+        if l.tag == p.tag && l.tag > 0 {
+            v.push(Fault::Copy { from: hlen + p.start + p.payload, to: hlen + l.start + l.payload, len: l.tag });
+            v.push(Fault::Copy { from: hlen + l.start + l.payload, to: hlen + p.start + p.payload, len: l.tag });
+        }
+    }
     for (at, n) in [(hlen.saturating_sub(8), 8usize), (17, 32), (17 + 32, 48)] {
         if at + n <= hlen {
             v.push(Fault::Fill { at, len: n, val: 0 });
@@ -127,11 +150,11 @@ impl Prop for C03 {
         "fault_enumeration"
     }
     fn rule(&self) -> String {
-        "run = seeded valid writer history with the encryption layer (E or C+E, 1..4 recipients) written to the simulated sink; stored-byte faults between write and read: EVERY single-bit flip of EVERY byte on images up to 700 bytes (s0, most s1), otherwise every bit of the header, windows around every anchor of the layout map and a seeded sample; all chunk-level edits for the first 8 chunks (swap every pair, move every ordered pair, duplicate, delete, splice chunk j of a second archive built from the same ops with its own fresh key and nonce at every index i), whole fields blanked to 00.. or FF.. (each tag of those chunks alone and TOGETHER with a flip in / a blanking of the payload it protects - compound faults -, the archive nonce, the first key slot), tail drops/garbage of 1,15,16,17,CHUNK,CHUNK+16 bytes, seeded cuts and byte substitutions. Each altered image is opened with the normal reader through the simulated source and a seeded read history is played (list, every file in seeded order with seeded buffer sizes, partial reads, abandon). Oracle: every listed name is an original name; every Ok read returns exactly the original bytes at the cursor; a read that reaches end-of-file with Ok has delivered the whole original file; the unaltered image opens and reads back. Errors are always accepted. evaluations = altered images judged; distinct_nontrivial = distinct (variant, layers, fault kind, region class of the fault, outcome class) signatures.".into()
+        "run = seeded valid writer history with the encryption layer (E or C+E, 1..4 recipients) written to the simulated sink; stored-byte faults between write and read: EVERY single-bit flip of EVERY byte on images up to 700 bytes (s0, most s1), otherwise every bit of the header, windows around every anchor of the layout map and a seeded sample; all chunk-level edits for the first 8 chunks (swap every pair, move every ordered pair, duplicate, delete, splice chunk j of a second archive built from the same ops with its own fresh key and nonce at every index i), whole fields blanked to 00.. or FF.. (each tag of those chunks alone and TOGETHER with a flip in / a blanking of the payload it protects - compound faults -, the archive nonce, the first key slot), FORGERIES built with the archive key and then invalidated (a payload byte changed, the chunk sealed again with a valid tag, then the first / second half, the first / last four bytes, one byte or one bit of that tag damaged: a conforming AES-GCM rejects all of them), transplants (the tag of chunk j on chunk i, the payload of chunk j under the tag of chunk i, among the first five chunks and the last two), tail drops/garbage of 1,15,16,17,CHUNK,CHUNK+16 bytes, seeded cuts and byte substitutions. Each altered image is opened with the normal reader through the simulated source and a seeded read history is played (list, every file in seeded order with seeded buffer sizes, partial reads, abandon). Oracle: every listed name is an original name; every Ok read returns exactly the original bytes at the cursor; a read that reaches end-of-file with Ok has delivered the whole original file; the unaltered image opens and reads back. Errors are always accepted. evaluations = altered images judged; distinct_nontrivial = distinct (variant, layers, fault kind, region class of the fault, outcome class) signatures.".into()
     }
     fn assumptions(&self) -> Vec<String> {
         vec![
-            "the attacker does not hold the archive key: only ciphertext-level edits (well-encrypted hostile content is C08)".into(),
+            "a VALID re-encryption under the archive key is not an alteration the format can detect (no sender authentication; well-encrypted hostile content is C08); forgeries built with the key are used only after their tag was damaged".into(),
             "two archives never share key and nonce (a chunk spliced at the same index under a reused nonce is indistinguishable by design)".into(),
             "hash and size fields are not named by the property and are only counted, not judged".into(),
         ]
@@ -277,7 +300,54 @@ impl Prop for C03 {
         }
         rops.push(ROp::List);
         let mut frng = Rng::new(case.param("hist_seed", 1) as u64 ^ 0xABCD);
-        let faults = faults_for(case, &image, hlen, chunk, lay.as_ref(), &mut frng);
+        let mut faults = faults_for(case, &image, hlen, chunk, lay.as_ref(), &mut frng);
+        if case.faults.is_empty() {
+            // forgeries that only someone holding the archive key can build, made INVALID on purpose: a payload byte is
+            // changed, the chunk is sealed again under the same key, nonce and index (a valid tag for the new payload), and
+            // then part of that tag is damaged - any conforming AES-GCM rejects the chunk; a reader that compares only part
+            // of the tag accepts it. Expressed as plain byte substitutions, so that replay needs no key.
+            if let Some((key, nonce)) = w.enc_params {
+                let ranges = crate::refmla::chunk_ranges(image.len() - hlen, chunk);
+                let mut picks: Vec<usize> = (0..ranges.len().min(2)).collect();
+                if ranges.len() > 2 {
+                    picks.push(ranges.len() - 1);
+                }
+                for i in picks {
+                    let r = &ranges[i];
+                    if r.payload == 0 || r.tag != 16 {
+                        continue;
+                    }
+                    let at = hlen + r.start;
+                    let mut plain = crate::refmla::ctr_chunk(&key, &nonce, i as u32, &image[at..at + r.payload]);
+                    let off = frng.usize_below(r.payload);
+                    plain[off] ^= 0x20;
+                    let (ct, tag) = crate::refmla::seal_chunk(&key, &nonce, i as u32, &plain);
+                    // which tag bytes are damaged: the first half, the second half, the first / last 4, one byte, one bit
+                    let damages: Vec<Vec<(usize, u8)>> = vec![
+                        (0..8).map(|k| (k, 0xFF)).collect(),
+                        (8..16).map(|k| (k, 0xFF)).collect(),
+                        (0..4).map(|k| (k, 0xFF)).collect(),
+                        (12..16).map(|k| (k, 0xFF)).collect(),
+                        vec![(frng.usize_below(16), 0xFF)],
+                        vec![(0, 0x01)],
+                        vec![(15, 0x80)],
+                        vec![(7, 0x01)],
+                        vec![(8, 0x01)],
+                    ];
+                    for d in damages {
+                        let mut fs = vec![Fault::Set { byte: at + off, val: ct[off] }];
+                        let mut t = tag;
+                        for (k, x) in d {
+                            t[k] ^= x;
+                        }
+                        for k in 0..16 {
+                            fs.push(Fault::Set { byte: at + r.payload + k, val: t[k] });
+                        }
+                        faults.push(Fault::Multi { faults: fs });
+                    }
+                }
+            }
+        }
         for f in &faults {
             let altered = apply_fault(&image, f, hlen, chunk, Some(&other));
             if altered == image {
